@@ -15,8 +15,9 @@ for i in range(1, 21):
         def n(t):
             c = ob.cases[t] if isinstance(ob.cases, dict) else ob.cases
             return len(c) if t in ob.tiers else 0
-        rows.append("| %s | `%s` | %s | %d / %d | %s |" % (ob.id, ob.fn, "twin (must be refuted)" if ob.expect == "refute" else "confirm",
-                                                         n("quick"), n("thorough"), ob.bound.replace("|", "/")))
-print("| obligation | harness fn | expectation | cases quick / thorough | bound |")
-print("|---|---|---|---|---|")
+        rows.append("| %s | `%s` | %s | %s | %d / %d | %s |" % (ob.id, ob.fn, "z3-direct" if getattr(ob, "smt", None) else "CrossHair",
+                                                              "twin (must be refuted)" if ob.expect == "refute" else "confirm",
+                                                              n("quick"), n("thorough"), ob.bound.replace("|", "/")))
+print("| obligation | harness fn | engine | expectation | cases quick / thorough | bound |")
+print("|---|---|---|---|---|---|")
 print("\n".join(rows))
